@@ -95,6 +95,19 @@ CHECKS.update({
          "DESIGN.md §3 C14"),
 })
 
+CHECKS.update({
+ "C07": ("E1 vmesh", "exploration",
+         "runtime monitor: before/after snapshot comparison of the victim's sessions/keys, MTU, stored router info, offline flag, routing table and connection states around every delivered variant of authentic pings produced and intercepted in a live virtual mesh; positive controls on the authentic frame's effect",
+         "A long-lived victim with peers, gossip routes, sessions and connection states; for every ping type/code an honest router's real code emits the ping, it is intercepted on the victim's link, and before it is delivered every byte-mutated, re-addressed (source rewritten to every other known router) and type-switched variant, and afterwards immediate/late/other-link replays, must leave the snapshot unchanged; the authentic frame may only change what the statement allows (hello: the source's session; disconnect: routes containing the source).",
+         "Bookkeeping excluded (bare stored records of valid identities, UsedAt, rate limiter); announcements' appendices are C08's business; one bit per byte in quick.",
+         "DESIGN.md §3 C07"),
+ "C08": ("E1 vmesh", "exploration",
+         "runtime monitor: authentic announcements with 0..12 signed hop records harvested from real flooding; forged variants (bit flips at every layer, cross-announcement splices, stripped/re-attributed/re-ordered/duplicated layers, layers re-signed with real keys over foreign or modified inner chains, wrong delivering link, rewritten source) delivered to a fresh victim; oracle on routing-table snapshot and forwarded announcements; accepted routes compared hop-by-hop with the attached signed records",
+         "Every variant an attacker can build from valid announcements and from keys he really holds is delivered to a fresh router; non-authentic ones must change neither the routing table nor be forwarded, authentic ones (positive control, up to 12 hop records) must yield a route listing exactly the signed records in order with their signed labels/delays and the delivering peer as next hop.",
+         "Ed25519 unforgeability assumed; a signer dropping earlier records and re-signing its own is authentic by the statement's definition.",
+         "DESIGN.md §3 C08"),
+})
+
 NOT_YET = "check not implemented yet in this revision of /verif (work in progress; see DESIGN.md §8)"
 
 def main():
